@@ -80,7 +80,7 @@ KF = {
     # the document before another object wrote to it in the same block holds stale data: the write is lost (or the
     # stale object keeps its view when the file does not exist on exit). Only histories with such a stale object,
     # and only silent divergences of that document (never an exception), are attributed to it.
-    "stale_object_flush": lambda case, mm: mm.detector == "stale_object_flush" and bool(case.get("unpin")),
+    "stale_object_flush": lambda case, mm: mm.detector == "stale_object_flush",
 }
 SILENT = ("readback", "file", "other_handle", "buffered_readback")
 
@@ -261,6 +261,8 @@ class Run:
         self.stack = []  # open buffered blocks: (kind, arg, context manager)
         self.pin = {}
         self.block_touch = {}
+        self.block_objs = {}
+        self._op_objs = set()
         self.stale_targets = set()
         self.block_writes = 0
         self.block_files = set()
@@ -340,8 +342,13 @@ class Run:
         if getattr(self, "keepref", False) and not getattr(self, "fresh_access", False):
             if "docref" not in h:
                 h["docref"] = h["obj"].document if alias else h["obj"].doc
-            return h["docref"]
-        return h["obj"].document if alias else h["obj"].doc
+            obj = h["docref"]
+        else:
+            obj = h["obj"].document if alias else h["obj"].doc
+        # (bookkeeping: which document OBJECTS were used for this operation -- a held reference and a fresh
+        # access can be two objects on one file, e.g. after remove()+init())
+        getattr(self, "_op_objs", set()).add(id(obj))
+        return obj
 
     def drop_refs(self, t=None):
         for tt, hs in enumerate(self.handles):
@@ -370,6 +377,7 @@ class Run:
         if len(self.stack) == 1:
             self.pin = {}
             self.block_touch = {}
+            self.block_objs = {}
             self.block_writes = 0
             self.block_files = set()
         else:
@@ -410,6 +418,7 @@ class Run:
             return
         self.pin = {}
         self.block_touch = {}
+        self.block_objs = {}
         self.verify_all("after leaving the buffered block")
 
     def close_all(self, exc=False):
@@ -813,13 +822,14 @@ class Run:
                 self.block_touch.setdefault(t, set()).add(hidx)
                 if len(self.block_touch[t]) >= 2:
                     self.cl.add("multi_handle_in_block")
-                    if name in WRITE_OPS + NESTED_DICT_OPS + LIST_OPS + ("job_clear",):
+                    if name in WRITE_OPS + NESTED_DICT_OPS + LIST_OPS + ("job_clear", "job_reset"):
                         # another document object touched this file earlier in the block and is stale from now on
                         self.stale_targets.add(t)
                         self.cl.add("stale_object_in_block")
             else:
                 hidx = self.pin.setdefault(t, hidx)
         h = self.handles[t][hidx]
+        self._op_objs = set()
         if self.mode == "U":
             self.used[t].add(hidx)
             if len(self.used[t]) >= 2:
@@ -848,7 +858,14 @@ class Run:
                 self.block_files.add(t)
                 if self.block_writes >= 2 and len(self.block_files) >= 2:
                     self.nontrivial = True
-            if len(self.block_touch.get(t, ())) < 2:
+            objs = self.block_objs.setdefault(t, set())
+            objs |= self._op_objs
+            if len(objs) >= 2 and wrote:
+                # two document objects on this file inside one block (also through ONE handle: a held reference
+                # next to a fresh access after remove()+init()), and a write: F-BUFSTALEOBJ territory
+                self.stale_targets.add(t)
+                self.cl.add("stale_object_in_block")
+            if len(self.block_touch.get(t, ())) < 2 and len(objs) < 2:
                 self.verify_in_block(t, hidx, wrote)
             else:
                 # not asserted; only follow what the dependency's None-over-collection rule (F-DOCNONE) did
@@ -886,6 +903,11 @@ class Run:
             self.mm("unexpected_exception", f"raised BufferedError: {str(e)[:300]}")
             return
         except Exception as e:
+            if t in self.stale_targets:
+                # the handle's view already differs from the model (a write was dropped by a flush inside the block)
+                self.quirk = True
+                self.mm("stale_object_flush", f"raised {type(e).__name__}: {e} (document model before the op: {before!r})")
+                return
             self.mm("unexpected_exception", f"raised {type(e).__name__}: {e} (document model before the op: {before!r})")
             return
         if flags.get("pop_missing") and rexc is None and rres is None and mexc == "KeyError":
